@@ -47,12 +47,16 @@ pub fn piece(tok: char, c: i128, ts: TimeScale, leap: &LeapTable, e: &Epoch) -> 
         'b' => text::MONTHS[(m - 1) as usize][..3].to_string(),
         'T' => text::scale_str(ts).to_string(),
         'z' => "+00:00".to_string(),
+        // documented as "year after 2000, on two digits" (and read back by adding 2000): pinned where that is one text,
+        // i.e. for the years 2000-2099; outside, the statement and the documentation leave the text open
+        'y' if (2000..=2099).contains(&y) => format!("{:02}", y - 2000),
         // not pinned by the statement: compared with the corresponding accessor only
         'J' => format!("{}", e.day_of_year()),
         'w' => {
-            // C89 number (Sunday = 0) of Epoch::weekday(), which is the weekday of the TAI date (C16)
-            let tai = scales::to_tai(c, ts, leap).unwrap_or_else(|| alpha(e.to_tai_duration()));
-            format!("{}", (tai.div_euclid(NS_DAY).rem_euclid(7) + 1) % 7)
+            // C89 number (Sunday = 0) of the weekday of the printed date, i.e. of the date in the epoch's own time scale
+            // ("the corresponding field of the epoch's Gregorian representation in its own time scale", as %A and %a)
+            let (y, m, d, _, _, _, _) = text::fields(c, ts);
+            format!("{}", (weekday1900(days1900(y, m, d)) + 1) % 7)
         }
         _ => return None,
     })
@@ -93,27 +97,7 @@ pub fn j_render(toks: &[char], seps: &[usize], c: i128, ts: TimeScale, leap: &Le
                 out.dc(2); // contains %y: rendering not pinned; the call returned
                 return;
             }
-            // %w is not pinned by the statement: the C89 number of either the TAI weekday (Epoch::weekday(), today's
-            // behaviour) or of the weekday of the printed date is accepted
-            let want_alt = if toks.contains(&'w') {
-                let (y, m, d, _, _, _, _) = text::fields(c, ts);
-                let own = format!("{}", (weekday1900(days1900(y, m, d)) + 1) % 7);
-                let mut w2 = String::new();
-                for (i, t) in toks.iter().enumerate() {
-                    if *t == 'w' {
-                        w2.push_str(&own);
-                    } else {
-                        w2.push_str(&piece(*t, c, ts, leap, &e).unwrap_or_default());
-                    }
-                    if i + 1 < toks.len() {
-                        w2.push_str(&sep_string(seps[i]));
-                    }
-                }
-                Some(w2)
-            } else {
-                None
-            };
-            if got == want || Some(&got) == want_alt.as_ref() {
+            if got == want {
                 let nt = toks.len() > 1;
                 out.ok(2, nt, toks.iter().fold(0u64, |a, t| a.wrapping_mul(17).wrapping_add(TOKENS.iter().position(|x| x == t).unwrap() as u64)) % 4096);
                 if out.want_sample(nt) {
@@ -129,6 +113,7 @@ pub fn j_render(toks: &[char], seps: &[usize], c: i128, ts: TimeScale, leap: &Le
                     let p = match (*t, tai_wd) {
                         ('A', Some(w)) => text::WEEKDAYS[w as usize].to_string(),
                         ('a', Some(w)) => text::WEEKDAYS[w as usize][..3].to_string(),
+                        ('w', Some(w)) => format!("{}", (w + 1) % 7),
                         _ => piece(*t, c, ts, leap, &e).unwrap(),
                     };
                     tai_variant.push_str(&p);
@@ -189,8 +174,9 @@ pub fn j_consts(k: u64, c: i128, ts: TimeScale, out: &mut Local) {
                 out.viol("c19.consts", "to_isoformat-wrong".into(), args, want[..26].to_string(), isof);
                 return;
             }
-            // only the six constants whose format string is documented (doc comments / doc tests) are compared with it
-            if k <= 5 && same != Ok(true) {
+            // every constant is the format its documentation stands for (six have the string in doc comments / doc
+            // tests; RFC3339, RFC3339_FLEX and ISO8601_STD are documented as the standard / as ISO8601 without the scale)
+            if same != Ok(true) {
                 out.viol("c19.consts", format!("{name}-differs-from-documented-string"), args, format!("Format::from_str({doc:?}) == {name}"), format!("{same:?}"));
             } else if got != want {
                 let leap_wd = if (k == 4 || k == 5) && got.len() == want.len() && got[got.find(',').unwrap_or(0)..] == want[want.find(',').unwrap_or(0)..] { "weekday-of-TAI-date-printed-next-to-own-scale-date" } else { "output-wrong" };
@@ -290,6 +276,10 @@ pub fn j_parse_back(fmt: &str, c: i128, out: &mut Local) {
     let e = Epoch::from_duration(mk(c), TimeScale::UTC);
     let has_f = fmt.contains("%f");
     let want = if has_f { c } else { c - c.rem_euclid(NS_S) };
+    if fmt.contains("%y") && !(2000..=2099).contains(&text::fields(c, TimeScale::UTC).0) {
+        out.dc(1); // two digits do not hold the year: not "the full date"
+        return;
+    }
     let r = guard(|| {
         let f = Format::from_str(fmt).map_err(|e| format!("{e:?}"))?;
         let shown = format!("{}", Formatter::new(e, f));
@@ -369,6 +359,11 @@ pub fn structure_class(fmt: &str) -> &'static str {
             return "%T-not-last";
         }
     }
+    for i in 0..n {
+        if name(t[i].0) && ((i + 1 < n && t[i].1.is_empty()) || (i > 0 && t[i - 1].1.is_empty())) {
+            return "name-token-without-separator";
+        }
+    }
     for i in 1..n {
         if name(t[i].0) {
             let prev: Vec<char> = t[i - 1].1.chars().collect();
@@ -437,6 +432,17 @@ pub fn parse_back_structures() -> Vec<String> {
     }
     v.push("%Y%m%dT%H%M%S.%f".into());
     v.push("%Y%m%d%H%M%S%f".into());
+    // a weekday or month name that touches its neighbour ("07Feb2015"): letters against digits, no ambiguity
+    for f in [
+        "%d%b%Y %H:%M:%S", "%d%B %Y %H:%M:%S", "%d %B%Y %H:%M:%S", "%B%d, %Y %H:%M:%S", "%b%d %Y %H:%M:%S.%f", "%Y %d %b%H:%M:%S", "%Y-%m-%d %a%H:%M:%S", "%A%d %B %Y %H:%M:%S", "%Y-%m-%d%A %H:%M:%S",
+        "%Y-%m-%d%a %H:%M:%S.%f",
+    ] {
+        v.push(f.to_string());
+    }
+    // the two-digit year (judged for the years 2000-2099, where the text is defined)
+    for f in ["%y-%m-%d %H:%M:%S", "%d/%m/%y %H:%M:%S.%f", "%a, %d %b %y %H:%M:%S", "%H:%M:%S %d.%m.%y"] {
+        v.push(f.to_string());
+    }
     v.sort();
     v.dedup();
     v
@@ -548,9 +554,9 @@ pub fn run(rep: &mut Report) {
     let eps = epochs();
     let ne = eps.len() as u64;
     rep.bound("epochs", ne);
-    rep.rule = "formats: all token sequences of length 1 and 2 over the 17 tokens with all 57 separator strings of 0-2 characters over {'-',' ',':','T',',','/','.'} (16 490 formats), length 3 with separators over {'-',' ',''} (thorough: all 4 913 x 9; quick: every 5th), rotations of two 16-token formats; x a 120-epoch sub-lattice (every scale within 10 s of a day/month/year boundary; all months, all weekdays, day of year 1/59/60/365/366, first/last nanosecond, 9 scales, years 0001/1899/1900/9999); the nine predefined constants x epochs; %z with all 2 879 offsets; parse-back of ~1 000 (quick) / ~52 000 (thorough) full date-time formats on UTC epochs. Oracle: concatenation of per-token reference pieces and the format's own separators.".into();
+    rep.rule = "formats: all token sequences of length 1 and 2 over the 17 tokens with all 57 separator strings of 0-2 characters over {'-',' ',':','T',',','/','.'} (16 490 formats), length 3 with separators over {'-',' ',''} (thorough: all 4 913 x 9; quick: every 5th), rotations of two 16-token formats; x a 120-epoch sub-lattice (every scale within 10 s of a day/month/year boundary; all months, all weekdays, day of year 1/59/60/365/366, first/last nanosecond, 9 scales, years 0001/1899/1900/9999); the nine predefined constants x epochs; %z with all 2 879 offsets; parse-back of ~52 000 full date-time formats on UTC epochs. Thorough tier in addition: every 3-token format with all 57 x 57 separator pairs, every 4-token format with separators over {'', '-', ' '}, and four many-token formats plus the nine constants on a dense calendar (every day of 1999-2001, 2016, 2017, 2024 x 9 scales x 4 times of day). Oracle: concatenation of per-token reference pieces and the format's own separators.".into();
     rep.assumptions = vec![
-        "%y is not pinned by the statement (its own text is a don't-care); %J and %w are compared with the day_of_year() accessor and the C89 number of Epoch::weekday()".into(),
+        "%y is pinned for the years 2000-2099 (two digits) and a don't-care elsewhere; %J is compared with the day_of_year() accessor; %w is the C89 number (Sunday = 0) of the weekday of the printed date".into(),
         "ISO 8601 formatter == Display is judged for non-zero nanoseconds only: for whole seconds the statement's per-token rule (nine-digit %f) and its display rule (fraction only when non-zero) contradict each other".into(),
     ];
     // length 1 and 2
@@ -586,6 +592,55 @@ pub fn run(rep: &mut Report) {
         let seps: Vec<usize> = (0..15).map(|k| [1usize, 2, 3, 9, 0, 20][(k + j) % 6]).collect();
         j_render(&rot, &seps, c, ts, &leap, out)
     });
+    if !rep.quick() {
+        // thorough only: every 3-token format with EVERY pair of separator strings (57 x 57), every 4-token format with
+        // separators over {"", "-", " "}, and a dense calendar (every day of six years, nine scales, four times of day)
+        // through one format per token
+        let e6: Vec<(TimeScale, i128)> = eps.iter().copied().step_by(19).collect();
+        let ne6 = e6.len() as u64;
+        rep.bound("len3_all_separator_pairs", 4913u64 * 57 * 57);
+        sweep(rep, "c19.render[len3,all-separators]", 4913 * 57 * 57 * ne6, |i, out| {
+            let (ts, c) = e6[(i % ne6) as usize];
+            let j = i / ne6;
+            let (t, s2, s1) = (j / 3249, (j / 57) % 57, j % 57);
+            j_render(&[TOKENS[(t / 289) as usize], TOKENS[((t / 17) % 17) as usize], TOKENS[(t % 17) as usize]], &[s1 as usize, s2 as usize], c, ts, &leap, out)
+        });
+        let e4: Vec<(TimeScale, i128)> = eps.iter().copied().step_by(13).collect();
+        let ne4 = e4.len() as u64;
+        rep.bound("len4_formats", 17u64.pow(4) * 27);
+        sweep(rep, "c19.render[len4]", 17u64.pow(4) * 27 * ne4, |i, out| {
+            let (ts, c) = e4[(i % ne4) as usize];
+            let j = i / ne4;
+            let (t, s) = (j / 27, (j % 27) as usize);
+            let tk = |k: u32| TOKENS[((t / 17u64.pow(k)) % 17) as usize];
+            j_render(&[tk(3), tk(2), tk(1), tk(0)], &[s / 9, (s / 3) % 3, s % 3], c, ts, &leap, out)
+        });
+        let scs = [TimeScale::UTC, TimeScale::TAI, TimeScale::GPST, TimeScale::TDB, TimeScale::TT, TimeScale::ET, TimeScale::GST, TimeScale::BDT, TimeScale::QZSST];
+        let mut dense: Vec<(TimeScale, i128)> = vec![];
+        for y in [1999i64, 2000, 2001, 2016, 2017, 2024] {
+            let d0 = days1900(y, 1, 1);
+            let n = days1900(y + 1, 1, 1) - d0;
+            for d in 0..n {
+                for ts in scs {
+                    for tod in [0i128, 11 * NS_S, 86_399 * NS_S + 999_999_999, 43_200 * NS_S + 500_000_000] {
+                        dense.push((ts, super::c08::expected_count(d0 + d, tod, ts)));
+                    }
+                }
+            }
+        }
+        let nd = dense.len() as u64;
+        rep.bound("dense_calendar_epochs", nd);
+        let dfmts: [(&[char], &[usize]); 4] = [(&['Y', 'm', 'd', 'H', 'M', 'S', 'f', 'T'], &[1, 1, 4, 3, 3, 7, 2]), (&['A', 'd', 'B', 'Y', 'j', 'w'], &[12, 2, 2, 2, 2]), (&['a', 'b', 'y', 'J'], &[2, 2, 2]), (&['j', 'Y', 'A', 'z'], &[1, 2, 0])];
+        sweep(rep, "c19.render[dense-calendar]", 4 * nd, |i, out| {
+            let (ts, c) = dense[(i % nd) as usize];
+            let (tk, sp) = dfmts[(i / nd) as usize];
+            j_render(tk, sp, c, ts, &leap, out)
+        });
+        sweep(rep, "c19.consts[dense-calendar]", 9 * nd, |i, out| {
+            let (ts, c) = dense[(i % nd) as usize];
+            j_consts(i / nd, c, ts, out)
+        });
+    }
     sweep(rep, "c19.consts", 9 * ne, |i, out| {
         let (ts, c) = eps[(i % ne) as usize];
         j_consts(i / ne, c, ts, out)
